@@ -383,3 +383,12 @@ func (c *Conn) WaitSubs(n int) {
 func (c *Conn) WaitSubsEver(n int) {
 	vsched.WaitUntil(c.obj, func() bool { return c.subsEver >= n })
 }
+
+// PendingTotal reports messages not yet fully handled by their subscriptions' callbacks.
+func (c *Conn) PendingTotal() int {
+	n := 0
+	for _, s := range c.subs {
+		n += s.pMsgs
+	}
+	return n
+}
